@@ -275,6 +275,10 @@ func DomainHost(r *rand.Rand) string {
 			} else {
 				labels[i] = "x"
 			}
+		case 5:
+			// an LDH label (often an ACE label, valid or bogus) in a compatibility spelling that the
+			// IDNA mapping folds back to ASCII: fullwidth forms, ignorable code points in between
+			labels[i] = Widen(r, Pick(r, ldhLabels), []float64{0.15, 0.5, 1}[r.IntN(3)])
 		default:
 			labels[i] = Pick(r, ldhLabels)
 		}
@@ -291,6 +295,23 @@ func DomainHost(r *rand.Rand) string {
 		s = PercentEncodeSome(r, s, 1.0)
 	}
 	return s
+}
+
+// Widen replaces ASCII characters by their fullwidth forms (U+FF01..U+FF5E) with probability p and
+// sometimes inserts a code point the IDNA mapping ignores (soft hyphen, variation selector).
+func Widen(r *rand.Rand, s string, p float64) string {
+	var sb strings.Builder
+	for _, c := range s {
+		if c > 0x20 && c < 0x7f && r.Float64() < p {
+			sb.WriteRune(c - 0x21 + 0xFF01)
+		} else {
+			sb.WriteRune(c)
+		}
+		if r.IntN(12) == 0 {
+			sb.WriteString(Pick(r, []string{"\u00ad", "\ufe0f", "\u200d"}))
+		}
+	}
+	return sb.String()
 }
 
 // PercentEncodeSome percent-encodes each byte of whole code points with probability p.
